@@ -3,10 +3,14 @@ CONSTANTS
   Variant = "ok"
   MaxStmts = 1000000
   Kinds = {"exec", "query", "prep", "nest"}
-  ErrKinds = {"plain", "norows", "notfound", "canceled", "txdone"}
+  ErrKinds = {"plain", "norows", "notfound", "canceled", "txdone", "bad", "deadline"}
   PanicKinds = {"str", "err", "rt"}
   Breaker = TRUE
   Emit = FALSE
+  BeginOuts = {"ok", "fail", "bad", "noconn", "f:txdone", "f:canceled", "f:norows"}
+  StmtErrs = {"plain", "bad", "txdone", "norows", "canceled", "deadline", "eof", "conndone"}
+  FinErrs = {"plain", "bad", "txdone", "norows", "canceled", "deadline", "eof", "conndone"}
+  CtxKinds = {"cancel", "deadline"}
 INVARIANTS ImplTypeOK NoDeviation StateInv Done
 VIEW ImplView
 CHECK_DEADLOCK FALSE
